@@ -444,3 +444,103 @@ Proof. exists (2000001 # 2). split; [discriminate|]. vm_compute. reflexivity. Qe
 Lemma sami_blank_after_ms0_refuted :
   exists caps, ok_sami_ms caps (map sev_obs (sami_events_unfixed caps None 0)) = false.
 Proof. exists [(inject_Z 0, inject_Z 900); (inject_Z 5000000, inject_Z 6000000)]. vm_compute. reflexivity. Qed.
+
+(* ---- cue structure: one cue per caption (DFXP, MicroDVD), one per layout group (WebVTT) ------------ *)
+Lemma time_ok_parts : forall t, time_ok t = true -> (0 <= t)%Q /\ 0 <= rhe t < 86400000000.
+Proof.
+  intros t H. unfold time_ok in H. apply andb_true_iff in H. destruct H as [H H3].
+  apply andb_true_iff in H. destruct H as [H1 H2]. split; [apply Qle_bool_iff; exact H1|lia].
+Qed.
+
+Lemma dfxp_one_p_per_caption : forall caps, caps_time_ok caps = true ->
+  length (dfxp_tokens caps) = length caps /\
+  ok_cues WDfxp caps [] (dfxp_tokens caps) = true.
+Proof.
+  intros caps H. split; [apply map_length|].
+  unfold ok_cues, expected_spans, dfxp_tokens. induction caps as [|c t IH]; [reflexivity|].
+  cbn [caps_time_ok forallb] in H. apply andb_true_iff in H. destruct H as [Hc Ht].
+  apply andb_true_iff in Hc. destruct Hc as [Hs He].
+  destruct (time_ok_parts _ Hs) as [_ Bs]. destruct (time_ok_parts _ He) as [_ Be].
+  cbn [map ok_pairs span ok_token]. unfold dfxp_ts.
+  rewrite !fmt_hms_ok by assumption. cbn [andb]. apply IH. exact Ht.
+Qed.
+
+Lemma mdvd_one_line_per_caption : forall caps, caps_time_ok caps = true ->
+  length (mdvd_tokens caps) = length caps /\
+  ok_cues WMdvd caps [] (mdvd_tokens caps) = true.
+Proof.
+  intros caps H. split; [apply map_length|].
+  unfold ok_cues, expected_spans, mdvd_tokens. induction caps as [|c t IH]; [reflexivity|].
+  cbn [caps_time_ok forallb] in H. apply andb_true_iff in H. destruct H as [Hc Ht].
+  apply andb_true_iff in Hc. destruct Hc as [Hs He].
+  destruct (time_ok_parts _ Hs) as [Ps _]. destruct (time_ok_parts _ He) as [Pe _].
+  cbn [map ok_pairs span ok_token].
+  rewrite !mdvd_token_ok by assumption. cbn [andb]. apply IH. exact Ht.
+Qed.
+
+(* the grouping loop: the number of groups is 1 + the number of layout changes between text nodes *)
+Lemma vtt_group_fold : forall nodes g ne cur, (cur <> None -> ne = true) ->
+  exists cur',
+    fold_left vtt_group_step nodes (g, ne, cur)
+    = ((g + layout_changes cur (text_layouts nodes))%nat, ne || shows_something nodes, cur')
+    /\ (cur' <> None -> ne || shows_something nodes = true).
+Proof.
+  induction nodes as [|n nodes IH]; intros g ne cur Hinv.
+  - exists cur. cbn [fold_left text_layouts flat_map layout_changes shows_something existsb].
+    rewrite Nat.add_0_r, orb_false_r. split; [reflexivity|exact Hinv].
+  - cbn [fold_left]. destruct n as [l|e|]; cbn [vtt_group_step].
+    + destruct (IH (if ne && match cur with Some c => negb (opt_z_eqb l (Some c)) | None => false end then S g else g)
+                   true l ltac:(intros; reflexivity)) as [cur' [E I]].
+      exists cur'. rewrite E. cbn [text_layouts flat_map app layout_changes shows_something existsb orb].
+      rewrite orb_true_r. split; [|intros; reflexivity]. f_equal. f_equal.
+      destruct cur as [c|].
+      * rewrite (Hinv ltac:(discriminate)). cbn [andb]. destruct (opt_z_eqb l (Some c)); cbn [negb]; unfold text_layouts; lia.
+      * rewrite andb_false_r. unfold text_layouts. lia.
+    + destruct (IH g (ne || e) cur ltac:(intros Hc; rewrite (Hinv Hc); reflexivity)) as [cur' [E I]].
+      exists cur'. rewrite E. cbn [text_layouts flat_map app shows_something existsb].
+      split; [rewrite orb_assoc; reflexivity|intros Hc; rewrite orb_assoc; exact (I Hc)].
+    + destruct (IH g true cur ltac:(intros; reflexivity)) as [cur' [E I]].
+      exists cur'. rewrite E. cbn [text_layouts flat_map app shows_something existsb orb].
+      rewrite orb_true_r. split; [reflexivity|intros; reflexivity].
+Qed.
+
+Lemma nothing_shown_no_text : forall nodes, shows_something nodes = false -> text_layouts nodes = [].
+Proof.
+  induction nodes as [|n t IH]; intros H; [reflexivity|].
+  cbn [shows_something existsb] in H. apply orb_false_iff in H. destruct H as [H1 H2].
+  destruct n as [l|e|]; try discriminate H1. cbn [text_layouts flat_map app]. apply IH. exact H2.
+Qed.
+
+Lemma vtt_group_count_spec : forall nodes, vtt_group_count nodes = spec_groups nodes.
+Proof.
+  intros nodes. unfold vtt_group_count, spec_groups. destruct nodes as [|n t]; [reflexivity|].
+  destruct (vtt_group_fold (n :: t) O false None ltac:(congruence)) as [cur' [E _]].
+  rewrite E. cbn [orb Nat.add].
+  destruct (shows_something (n :: t)) eqn:S; [reflexivity|].
+  rewrite (nothing_shown_no_text _ S). reflexivity.
+Qed.
+
+Lemma ok_pairs_app : forall k e1 o1 e2 o2, length e1 = length o1 ->
+  ok_pairs k (e1 ++ e2) (o1 ++ o2) = ok_pairs k e1 o1 && ok_pairs k e2 o2.
+Proof.
+  intros k. induction e1 as [|[s e] e1 IH]; intros o1 e2 o2 H; destruct o1 as [|[a b] o1]; try discriminate H.
+  - reflexivity.
+  - cbn [app ok_pairs]. rewrite IH by (cbn [length] in H; lia). rewrite !andb_assoc. reflexivity.
+Qed.
+
+(* every cue of a caption carries the caption's times; as many cues as layout groups *)
+Lemma vtt_cues_same_times : forall caps : list (caption * list vnode), caps_time_ok (map fst caps) = true ->
+  ok_cues WVtt (map fst caps) (map (fun cn => spec_groups (snd cn)) caps) (vtt_tokens caps) = true.
+Proof.
+  intros caps H. unfold ok_cues, expected_spans, vtt_tokens.
+  induction caps as [|[c nodes] t IH]; [reflexivity|].
+  cbn [map fst caps_time_ok forallb] in H. apply andb_true_iff in H. destruct H as [Hc Ht].
+  apply andb_true_iff in Hc. destruct Hc as [Hs He].
+  destruct (time_ok_parts _ Hs) as [_ Bs]. destruct (time_ok_parts _ He) as [_ Be].
+  cbn [map fst snd combine concat].
+  rewrite ok_pairs_app by (unfold vtt_cap_tokens; rewrite !repeat_length, vtt_group_count_spec; reflexivity).
+  rewrite (IH Ht). rewrite andb_true_r.
+  unfold vtt_cap_tokens. rewrite vtt_group_count_spec.
+  induction (spec_groups nodes) as [|n IHn]; [reflexivity|].
+  cbn [repeat ok_pairs span ok_token]. rewrite !vtt_ts_ok by assumption. cbn [andb]. exact IHn.
+Qed.
